@@ -383,15 +383,34 @@ func (p *c20) injected(u c20unit, j int) (src, what string, off int) {
 		}
 		return src, fmt.Sprintf("illegal character at token boundary %d", j), strings.Index(src, "@")
 	case j < 2*B:
-		pol := &injPolicy{at: j - B, tok: "987654", closeOnly: true}
+		// a number, a string, and the literals that are spelled like names
+		lits := []string{"987654", "'surplus'", "true", "12.5", "null", "\"dq\"", "none", "false", "0"}
+		lit := lits[(j-B+len(u.name))%len(lits)]
+		pol := &injPolicy{at: j - B, tok: "\x02" + lit, closeOnly: true}
 		src, _ = gen.Source(&gen.Template{Body: u.nodes()}, pol)
+		off := strings.Index(src, "\x02")
+		src = strings.Replace(src, "\x02", "", 1)
 		if !pol.done {
 			return src, "", -1
 		}
 		if lexicalEndTagBroken(src) {
 			return src, "", -1
 		}
-		return src, fmt.Sprintf("surplus literal before the closing delimiter at boundary %d", j-B), strings.Index(src, "987654")
+		if lit[0] >= 'a' && lit[0] <= 'z' && off > 0 {
+			// a literal spelled like a name: behind a test it reads as the second word of the test's name, behind a
+			// word that takes a name as a name - not a surplus literal then
+			// ... or as one more name in a list of names (filters, parameters). It is a surplus literal beyond doubt
+			// where no name can follow: directly behind the name of an end tag or behind else
+			before := strings.Fields(strings.TrimSpace(src[:off]))
+			last := ""
+			if len(before) > 0 {
+				last = before[len(before)-1]
+			}
+			if !(strings.HasPrefix(last, "end") || last == "else") || (len(before) >= 2 && !strings.HasSuffix(before[len(before)-2], "{%")) {
+				return src, "", -1
+			}
+		}
+		return src, fmt.Sprintf("surplus literal %s before the closing delimiter at boundary %d", lit, j-B), off
 	case j < 3*B:
 		pol := &injPolicy{at: j - 2*B, tok: []string{")", "]"}[j%2], depthZeroOnly: true}
 		src, _ = gen.Source(&gen.Template{Body: u.nodes()}, pol)
@@ -531,6 +550,9 @@ func (p *c20) Run(i int) (res fw.Result) {
 			return
 		}
 		res.AddClass("injection")
+		if strings.Contains(what, "surplus literal") {
+			res.AddClass("injection-surplus/" + strings.Fields(what)[2])
+		}
 		_, err := parse.Parse(src)
 		key := "c20:inj:" + u.name + ":" + what
 		in := map[string]interface{}{"source": src, "injected": what}
@@ -576,6 +598,17 @@ func (p *c20) Run(i int) (res fw.Result) {
 			res.AddObs("truncations_requiring_error", 1)
 			if _, err := parse.Parse(prefix); err == nil {
 				res.Fail("truncation-accepted", fmt.Sprintf("c20:trunc:%d:%d", k, off), fmt.Sprintf("source cut off at byte %d (%s) is accepted without error", off, why), map[string]interface{}{"prefix": prefix})
+			} else if l, c, ok := errPosition(err); ok {
+				// where the error points: at the end of the input, at the name of a tag that is left open, or at a
+				// token inside the tag or print that was cut off - never at (or behind) a delimiter that closes a
+				// complete tag, which is neither the anchor of anything nor what is wrong
+				place := truncErrorPlace(prefix, l, c)
+				res.AddClass("truncation-error-at/" + place)
+				if place == "closing-delimiter" || place == "beyond-the-input" {
+					res.Fail("wrong-error-position", fmt.Sprintf("c20:truncpos:%d:%d", k, off), fmt.Sprintf("source cut off at byte %d (%s): the error %q points at line %d, column %d: %s", off, why, err, l, c, place), map[string]interface{}{"prefix": prefix})
+				}
+			} else {
+				res.Fail("no-position", fmt.Sprintf("c20:truncpos:%d:%d", k, off), fmt.Sprintf("source cut off at byte %d (%s): the error %q carries no position", off, why, err), map[string]interface{}{"prefix": prefix})
 			}
 		}
 		if res.Evals == 0 {
@@ -586,6 +619,39 @@ func (p *c20) Run(i int) (res fw.Result) {
 		p.runNamed(&res, i-p.nPos-p.nInj-p.nTrunc)
 	}
 	return
+}
+
+// truncErrorPlace says what stands at the position a truncation error reports.
+func truncErrorPlace(prefix string, line, col int) string {
+	off := 0
+	for l := 1; l < line; l++ {
+		i := strings.IndexByte(prefix[off:], '\n')
+		if i < 0 {
+			return "beyond-the-input"
+		}
+		off += i + 1
+	}
+	off += col
+	switch {
+	case off > len(prefix):
+		return "beyond-the-input"
+	case strings.TrimRight(prefix[off:], " \t\r\n") == "":
+		return "end-of-input"
+	case strings.HasPrefix(prefix[off:], "{{") || strings.HasPrefix(prefix[off:], "{%") || strings.HasPrefix(prefix[off:], "{#"):
+		return "opening-delimiter"
+	}
+	before := strings.TrimRight(prefix[:off], " \t\r\n")
+	before = strings.TrimSuffix(before, "-")
+	if strings.HasSuffix(before, "{%") {
+		return "tag-name"
+	}
+	if strings.HasSuffix(before, "%}") || strings.HasSuffix(before, "}}") {
+		return "after-a-closing-delimiter"
+	}
+	if strings.HasPrefix(prefix[off:], "%}") || strings.HasPrefix(prefix[off:], "}}") || strings.HasPrefix(prefix[off:], "-%}") || strings.HasPrefix(prefix[off:], "-}}") {
+		return "closing-delimiter"
+	}
+	return "inside-a-tag-or-print"
 }
 
 type anchorPos struct{ line, col int }
@@ -873,5 +939,5 @@ func (p *c20) Assumptions() []string {
 }
 
 func (p *c20) Floors(tier string) map[string]int64 {
-	return map[string]int64{"node_positions_checked": 50000, "error_positions_checked": 1000, "truncations_requiring_error": 5000, "named_errors_checked": 200, "distinct_nontrivial": 2000}
+	return map[string]int64{"node_positions_checked": 50000, "error_positions_checked": 1000, "truncations_requiring_error": 5000, "named_errors_checked": 200, "distinct_nontrivial": 2000, "class:injection-surplus/true": 1, "class:injection-surplus/null": 1, "class:injection-surplus/'surplus'": 1, "class:truncation-error-at/tag-name": 100, "class:truncation-error-at/end-of-input": 100}
 }
